@@ -5,6 +5,7 @@
    [Permutation Y (trecords T)] says nothing is missing.                                        *)
 From RtrV Require Import Pfx.TrieModel Pfx.PfxTable Pfx.PfxProofs Pfx.PfxHistory Pfx.PfxReload.
 From Coq Require Import Permutation.
+From RtrV Require Import Rtr.RtrModel Rtr.CallbackFrames Rtr.CallbackProofs.
 
 (* every history of public operations, removal by source included *)
 Theorem C09_history : forall ops, Forall op_ok ops ->
@@ -25,6 +26,20 @@ Theorem C09_reload : forall Told Tnew s,
   exists Y, replay (fst (tnotify_diff Tnew Told s)) (trecords Told) = Some Y /\ Permutation Y (trecords Tnew).
 Proof. exact c09_reload. Qed.
 
+(* histories driven by a cache (executable RTR model, Rtr/RtrModel.v, tied to rtr.c / packets.c by trace equality in the
+   RTR checks): over any run of the socket state machine - deltas applied, rolled back, purged after a failed roll-back,
+   atomic reloads, expiry, stop - and for any environment script, the update callbacks emitted during the run replay the
+   prefix table AND the router-key table from their contents before the run to their contents after it (the model keeps
+   tables as duplicate-free lists, hence "up to order"); strict replay as above: nothing reported that did not happen,
+   nothing twice, nothing missing. *)
+Theorem C09_cache_driven : forall n fuel w,
+  let w' := run_fsm n fuel w in
+  exists new, cbs (out w') = new ++ cbs (out w) /\
+    (NoDup (pfx w) -> NoDup (pfx w') /\ exists Y, rpP (rev new) (pfx w) = Some Y /\ Permutation Y (pfx w')) /\
+    (NoDup (keys w) -> NoDup (keys w') /\ exists Y, rpK (rev new) (keys w) = Some Y /\ Permutation Y (keys w')).
+Proof. exact callbacks_replay. Qed.
+
+Print Assumptions C09_cache_driven.
 Print Assumptions C09_history.
 Print Assumptions C09_free.
 Print Assumptions C09_reload.
